@@ -212,9 +212,16 @@ pub fn mode_faultenum(args: &Args) {
     let mut idx = shard;
     let mut positions = 0u64;
     let mut bases = 0u64;
+    let only_hseed: Option<u64> = args.m.get("hseed").and_then(|x| x.parse().ok());
+    let only_variant = args.m.get("variant").cloned();
+    let mut count = count;
+    if only_hseed.is_some() {
+        idx = 0;
+        count = 1;
+    }
     'outer: while idx < count {
-        let hs = hseed(seed ^ 0xfa17, idx);
-        cfg.pacing = [0u8, 1, 3, 0][(idx % 4) as usize];
+        let hs = only_hseed.unwrap_or_else(|| hseed(seed ^ 0xfa17, idx));
+        cfg.pacing = if only_hseed.is_some() { args.num("pacing", 0) as u8 } else { [0u8, 1, 3, 0][(idx % 4) as usize] };
         let base = run_random(&cfg, hs, false);
         idx += nshards;
         if !base.viols.is_empty() || base.inconclusive.is_some() {
@@ -289,6 +296,14 @@ pub fn mode_faultenum(args: &Args) {
             }
         }
         for (name, v) in variants {
+            if let Some(ov) = &only_variant {
+                if ov != &name {
+                    continue;
+                }
+                for o in v.iter() {
+                    println!("OP {}", o);
+                }
+            }
             positions += 1;
             let mut r = run_ops(cfg.n_arenas as usize, &v, false);
             // the base (fault-free) schedule was clean, so this is already differential
